@@ -56,6 +56,14 @@ Lemma combine_length_eq {A B} (l : list A) (l' : list B) :
   length l = length l' -> length (combine l l') = length l.
 Proof. intro Hl. rewrite combine_length, <- Hl. apply Nat.min_id. Qed.
 
+Lemma nth_error_combine {A B} (l : list A) (l' : list B) i a b :
+  nth_error l i = Some a -> nth_error l' i = Some b -> nth_error (combine l l') i = Some (a, b).
+Proof.
+  revert l l'; induction i as [|i IH]; intros [|x l] [|y l']; cbn; try discriminate.
+  - intros Ha Hb; injection Ha as ->; injection Hb as ->; reflexivity.
+  - apply IH.
+Qed.
+
 Section Proofs.
   Variable H : N -> N -> N.
   Variable sig : Type.
@@ -227,6 +235,15 @@ Section Proofs.
     unfold sign_roots_by_account_type. destruct (Nat.eqb (length accs) (length roots)) eqn:Hlen; [|discriminate].
     cbn [negb]. intro Hl. split; [apply Nat.eqb_eq; exact Hlen|].
     eapply sign_split_ok; [|exact Hl]. intros g l'. apply sign_roots_multi_ok.
+  Qed.
+
+  Lemma sign_roots_by_account_type_nth accs roots domain l i a r :
+    sign_roots_by_account_type H sig zero_sig E accs roots domain = Ok l ->
+    nth_error accs i = Some a -> nth_error roots i = Some r ->
+    nth_error l i = Some (expected a (csr r domain)).
+  Proof.
+    intros Hl Ha Hr. apply sign_roots_by_account_type_ok in Hl as [_ ->].
+    rewrite nth_error_map, (nth_error_combine _ _ _ _ _ Ha Hr). reflexivity.
   Qed.
 
   (* ---------------------------------------------------------------------------------------- *)
@@ -402,6 +419,37 @@ Section Proofs.
     destruct (s_builder Sv) as [dt|]; [|discriminate].
     destruct (p_genesis P dt) as [domain|] eqn:Hd; [|discriminate].
     intro Hs. exists r, dt, domain. apply sign_one_ok in Hs. repeat split; try reflexivity; try exact Hd; apply Hs.
+  Qed.
+
+  Lemma sign_attestations_nth accs idxs shared l i a idx :
+    sign_attestations H sig zero_sig P E Sv accs idxs shared = Ok l ->
+    nth_error accs i = Some a -> nth_error idxs i = Some idx ->
+    exists domain, p_domain P (s_attester Sv) (epoch (ad_slot shared)) = Some domain /\
+      nth_error l i = Some (expected a (csr (htr_att_data H (att_with_index shared idx)) domain)).
+  Proof.
+    intros Hl Ha Hi. apply sign_attestations_ok in Hl as (domain & Hd & _ & _ & ->).
+    exists domain. split; [exact Hd|].
+    rewrite nth_error_map, (nth_error_combine _ _ _ _ _ Ha Hi). reflexivity.
+  Qed.
+
+  Lemma sign_attestation_able a d domain :
+    a_fail a = false -> (a_prot a || a_signer a = true) ->
+    p_domain P (s_attester Sv) (epoch (ad_slot d)) = Some domain ->
+    sign_attestation H sig P E Sv a d = Ok (sign (a_key a) (csr (htr_att_data H d) domain)).
+  Proof.
+    intros Hf Hc Hd. unfold sign_attestation. rewrite Hd. destruct (a_prot a) eqn:Hp.
+    - cbn [e_att honest]. unfold honest_one. rewrite Hf. reflexivity.
+    - apply sign_one_able; [exact Hf|]. rewrite Hp. exact Hc.
+  Qed.
+
+  Lemma sign_proposal_able a h domain :
+    a_fail a = false -> (a_prot a || a_signer a = true) ->
+    p_domain P (s_proposer Sv) (epoch (bh_slot h)) = Some domain ->
+    sign_proposal H sig P E Sv a h = Ok (sign (a_key a) (csr (htr_block_header H h) domain)).
+  Proof.
+    intros Hf Hc Hd. unfold sign_proposal. rewrite Hd. destruct (a_prot a) eqn:Hp.
+    - cbn [e_prop honest]. unfold honest_one. rewrite Hf. reflexivity.
+    - apply sign_one_able; [exact Hf|]. rewrite Hp. exact Hc.
   Qed.
 
   (* the guard of fix b69e3bf: items of several epochs are refused, never signed with one domain *)
